@@ -7,6 +7,7 @@ for d in seeded/*/; do
   id=$(basename "$d"); p=${id%%-*}
   # (a few changes violate nothing the check of their own property observes: meta.json names the check that does)
   cw=$(jq -r '.check_with // empty' "$d/meta.json" 2>/dev/null); [ -n "$cw" ] && p=$cw
+  if [ -n "$(jq -r '.neutralised_by // empty' "$d/meta.json" 2>/dev/null)" ]; then echo "skipped  $id :: no longer a breaking change (see meta.json: neutralised_by)"; continue; fi
   out=$(tools/try_seed_iso.sh "$d/patch.diff" "$tier" "$p" 2>&1)
   line=$(echo "$out" | grep -a "^== $p")
   case "$line" in
